@@ -372,7 +372,7 @@ def dict_stream(ctx, res, n):
                 k1, k2 = rng.choice([("a", " a"), ("a", "A "), ("b ", " B"), ("c", " C")])
                 pairs = [(k1, rng.choice(good)), (k2, rng.choice(good)), (k1, rng.choice(good))]
             pairs = [(k, v) for k, v in pairs if hashable(k)]
-            form = rng.choice(["dict", "pairs", "proxy", "tuplepairs", "selfcopy"])
+            form = rng.choice(["dict", "pairs", "proxy", "tuplepairs", "selfcopy", "mapping"])
             kw = [kv(0.05) for _ in range(rng.randint(0, 2))] if rng.random() < 0.4 else []
             kw = list({k: v for k, v in kw if isinstance(k, str) and k.isidentifier()}.items())
             if r < 0.25:
@@ -393,6 +393,12 @@ def dict_stream(ctx, res, n):
                     pairs = list(dict(okp).items())
                 elif form == "dict":
                     pairs = list(dict(pairs).items())
+                elif form == "mapping":
+                    # a mapping that is not a dict: read-only view, UserDict, ChainMap
+                    import collections
+                    import types
+                    pairs = list(dict(pairs).items())
+                    src_pairs = rng.choice([types.MappingProxyType, collections.UserDict, lambda d: collections.ChainMap(d)])(dict(pairs))
                 elif form == "selfcopy":
                     # a snapshot of the typed dict itself (same configuration, same field): the proxies' own fast path, plus keywords
                     src_pairs = proxy.copy()
@@ -414,8 +420,8 @@ def dict_stream(ctx, res, n):
                 args = [(k, v if with_default else None)]
             elif r < 0.72:
                 import operator
-                shape = rng.choice(["dict", "dict", "list", "tuple", "zip", "gen", "items"])
-                if shape in ("dict", "items"):
+                shape = rng.choice(["dict", "dict", "list", "tuple", "zip", "gen", "items", "mappingproxy", "userdict"])
+                if shape in ("dict", "items", "mappingproxy", "userdict"):
                     pairs = list(dict(pairs).items())
                 name, wire = "ior", {"op": "ior", "pairs": [[F.enc_val(a), F.enc_val(b)] for a, b in pairs]}
 
@@ -425,6 +431,12 @@ def dict_stream(ctx, res, n):
                         return dict(ps)
                     if shape == "items":
                         return dict(ps).items()
+                    if shape == "mappingproxy":
+                        import types
+                        return types.MappingProxyType(dict(ps))
+                    if shape == "userdict":
+                        import collections
+                        return collections.UserDict(dict(ps))
                     if shape == "list":
                         return [tuple(p) for p in ps]
                     if shape == "tuple":
